@@ -33,7 +33,7 @@ CLAIMS['C07'] = dict(cat='model_checking', ref='DESIGN.md §4 C07',
 CLAIMS['C01'] = dict(cat='model_checking', ref='DESIGN.md §4 C01',
     text='SAT decides the map-oracle assertions (results of insert/remove/get/empty, value bytes, untouched other entries) for ALL 2^64 keys of one symbolic operation on each tree of a catalogue '
          'of concrete shapes (every way a key can leave the tree), and for two/three fully symbolic keys from the empty index; I48/I256 trees with children at the boundary key bytes 00/01/7F/80/81/FE/FF with one remove per boundary byte. '
-         'Bounded: prelude + one symbolic operation, not arbitrary histories.',
+         'a value view taken by get() stays readable and unchanged through one insert / one remove of any other key (pointer checks on). Bounded: prelude + one symbolic operation, not arbitrary histories.',
     note='trusted: translator (validated per run against the g++ build on solver-generated vectors), CBMC memory model, zero-initialised objects, allocation never fails here (C08 covers faults). '
          'Counterexamples are replayed on a native g++ build of the real code before being reported.')
 
